@@ -440,7 +440,7 @@ func TestVerif_C02_Flows(t *testing.T) {
 	defer r.Finish()
 	m := &monitor{r}
 	r.Rule("case i mod 3: 0 = uniformly drawn member of the systematic space with 3 or 4 nodes; 1 = random flow of 1..7 nodes over filters fA,fB,fC (two kinds), reuse, aliases from a colliding pool (incl. an alias equal to another filter's name), END nodes, namespaces {default,nsA,nsB}, strict (well-formed by construction) or loose (targets/results arbitrary); 2 = a strict random flow plus one ill-forming edit aimed at one of the seven reject clauses (verdict always from the reference predicate). Every flow goes through both validation entry points; accepted well-formed flows are executed through Pipeline.Handle for all result vectors (depth-first, cap 600, then 150 random vectors). distinct = (flow shape class, step classes, how/where ended) and (validation verdict, clause set, shape)")
-	total := r.N(18000, 250000)
+	total := r.N(10000, 250000)
 	for i := 0; i < total; i++ {
 		if !r.Mine(i) {
 			continue
@@ -526,7 +526,7 @@ func TestVerif_C02_BeforeAfter(t *testing.T) {
 	r.Rule("first 180 cases: complete product before x main x after over 6 hand-picked tiny flows (absent, [END], [f], [f jumpIf->END in nsA], [f jump over END to aliased node], [f,END,f]) with main never absent; then seeded random triples (each side absent 25%, member of the systematic space with 1-2 nodes, or strict random flow up to 4 nodes; 15%: one side made ill-formed to check that GlobalFilter validation rejects). Each triple x every result vector (cap 800 + 150 random) is executed by HandleWithBeforeAfter and by GlobalFilter.Handle and compared with the reference (same interpreter, an end in any phase ends all). distinct = (mode, shape classes of the three flows, step classes, how/where ended)")
 	tiny := tinyFlows()
 	nTiny := len(tiny) * (len(tiny) - 1) * len(tiny)
-	total := nTiny + r.N(5000, 60000)
+	total := nTiny + r.N(2500, 60000)
 	for i := 0; i < total; i++ {
 		if !r.Mine(i) {
 			continue
@@ -679,7 +679,7 @@ func TestVerif_C02_EndAlias(t *testing.T) {
 	if !deciding {
 		r.Assume("VERIF_C02_ENDALIAS=explore: the shadowing shape is only counted, not decided")
 	}
-	total := r.N(5000, 60000)
+	total := r.N(3000, 60000)
 	for i := 0; i < total; i++ {
 		if !r.Mine(i) {
 			continue
